@@ -1866,7 +1866,9 @@ class scope(slots_getstate_setstate):
             if sources is None:
                 sources = [source]
             for source in sources:
-                assert source.name == self.name
+                assert source.name == self.name or (
+                    self.alias is not None and source.name == self.alias
+                )
                 if source.is_definition:
                     if skip_incompatible_objects:
                         continue
